@@ -512,6 +512,12 @@ func (s *transactionStore) Watch(ctx context.Context, ch chan<- configapi.Transa
 				delete(s.watchers, id)
 			}
 			s.mu.Unlock()
+			// The dispatcher may have copied the watcher list before this watcher was removed:
+			// keep the channel drained so that a late send cannot block it.
+			go func() {
+				for range eventCh {
+				}
+			}()
 		}()
 
 		defer close(ch)
